@@ -57,6 +57,21 @@ Theorem C20_in :
 Proof. exact contains_spec. Qed.
 Print Assumptions C20_in.
 
+(* completeness and soundness of lookup by name: every table held is returned under its own name,
+   and nothing is returned under a name that is not its own *)
+Theorem C20_findable :
+  forall (T : Type) (name_of : T -> option str) (bs : list (blk T)) (b : bundle T) (t : T),
+    build name_of bs = Some b -> In t (tables bs) ->
+    exists n, name_of t = Some n /\ In t (all b n) /\ contains b n = true.
+Proof. exact findable. Qed.
+Print Assumptions C20_findable.
+
+Theorem C20_all_sound :
+  forall (T : Type) (name_of : T -> option str) (bs : list (blk T)) (b : bundle T) (n : str) (t : T),
+    build name_of bs = Some b -> In t (all b n) -> In t (tables bs) /\ name_of t = Some n.
+Proof. exact all_sound. Qed.
+Print Assumptions C20_all_sound.
+
 (* non-vacuity: three table blocks, two of them named "a", one other block in between *)
 Example C20_example :
   let a : str := [97%N] in let b : str := [98%N] in
